@@ -19,7 +19,7 @@ Equiv(a, b) == a.off = b.off /\ a.dst = b.dst /\ a.abbr = b.abbr
 RuleOf(D) ==
   IF ~D.hasfooter \/ D.footer = <<>> THEN [kind |-> "none"]
   ELSE LET p == ParseSpec(D.footer) IN
-       IF ~p.ok THEN [kind |-> "bad"]
+       IF ~p.ok \/ Unconstrained(D.footer) THEN [kind |-> "bad"]      \* a leading ':' is implementation-defined: left open
        ELSE IF p.hasdst /\ p.dst_abbr = <<>> THEN [kind |-> "odd"]     \* "<>" as the dst name: left open (DESIGN.md)
        ELSE IF ~p.hasdst THEN [kind |-> "std", stdT |-> TypeRec(p.std_off, FALSE, p.std_abbr)]
        ELSE [kind |-> IF AllYearDST(p) THEN "allyear" ELSE "dst",
